@@ -1,13 +1,107 @@
 /-
-  C02 — property theorems.  Every `theorem` in this file is an obligation of the check.
+  C02 — property theorems.  Every `theorem` in this file is an obligation of the check; helper lemmas live in
+  Lemmas.lean / RoundTrip.lean, the legal-value predicate `wf` in WF.lean, the model in Model.lean / OldPayloads.lean,
+  the tables in the GENERATED Gen.lean (live registry + shipped classes) and GenSpec.lean (frozen documented format).
+
+  Quantifiers are unbounded: every format (any nesting depth, lists of nested payloads, …), every legal value, every
+  prefix `pre` (= every start offset) and suffix `post`.
 -/
-import Ipv8.C02.Lemmas
+import Ipv8.C02.RoundTrip
 
 namespace Ipv8.C02
 open Gen Spec
 
+/-! ## round trip at any position -/
+
+/-- one packer: decoding the encoded bytes at offset `|pre|` inside `pre ++ bytes ++ post` yields the same value and the
+    new offset is exactly the end of the produced bytes (`raw` and lists of it must be followed by nothing) -/
+theorem roundtrip_at_offset (f : Fmt) (v : Val) (pre post b : Bytes)
+    (hwf : wf f v = true) (hp : pack f v = .ok b) (hr : endsInRaw f = true → post = []) :
+    unpackAt f (pre ++ b ++ post) pre.length = .ok (v, pre.length + b.length) := by
+  rw [List.append_assoc]; exact rt f v b pre post hp hwf hr
+
+/-- a whole message (format list = `Serializer.pack_serializable` / `unpack_serializable`), hence also any message nested
+    in `payload` or listed in `payload-list` at any depth (those are the `nested` / `listOf … nested` cases of the
+    mutual induction behind this theorem) -/
+theorem roundtrip_list_at_offset (fs : FmtList) (vs : ValList) (pre post b : Bytes)
+    (hwf : wfList fs vs = true) (hp : packList fs vs = .ok b) (hr : endsInRawL fs = true → post = []) :
+    unpackListAt fs (pre ++ b ++ post) pre.length = .ok (vs, pre.length + b.length) := by
+  rw [List.append_assoc]; exact rtList fs vs b pre post hp hwf hr
+
+/-- re-encoding what was decoded gives the same bytes -/
+theorem reencode (fs : FmtList) (vs vs' : ValList) (pre post b : Bytes) (o : Nat)
+    (hwf : wfList fs vs = true) (hp : packList fs vs = .ok b) (hr : endsInRawL fs = true → post = [])
+    (hd : unpackListAt fs (pre ++ b ++ post) pre.length = .ok (vs', o)) :
+    packList fs vs' = .ok b ∧ o = pre.length + b.length := by
+  rw [roundtrip_list_at_offset fs vs pre post b hwf hp hr] at hd
+  cases hd
+  exact ⟨hp, rfl⟩
+
+/-- a message listed in `payload-list` between other fields: the neighbours are not disturbed -/
+theorem roundtrip_listed (lw : Nat) (fs : FmtList) (items : ValList) (pre post b : Bytes)
+    (hwf : wfMany (.nested fs) items = true) (hp : pack (.listOf lw (.nested fs)) (.list items) = .ok b) :
+    unpackAt (.listOf lw (.nested fs)) (pre ++ b ++ post) pre.length = .ok (.list items, pre.length + b.length) := by
+  apply roundtrip_at_offset _ _ _ _ _ _ hp
+  · intro h; simp [endsInRaw] at h
+  · simp [wf, endsInRaw, hwf]
+
+/-- every shipped class (generated table): instance of the list theorem on the class's actual format list -/
+theorem shipped_roundtrip : ∀ p ∈ payloads, ∀ (vs : ValList) (pre post b : Bytes),
+    wfList p.fmts vs = true → packList p.fmts vs = .ok b → (endsInRawL p.fmts = true → post = []) →
+    unpackListAt p.fmts (pre ++ b ++ post) pre.length = .ok (vs, pre.length + b.length) := by
+  intro p _ vs pre post b h1 h2 h3
+  exact roundtrip_list_at_offset p.fmts vs pre post b h1 h2 h3
+
+/-- `unpack_serializable_list(…, consume_all=True)` accepts exactly-consumed input and returns the same messages -/
+theorem roundtrip_consume_all (fs : FmtList) (vs : ValList) (pre b : Bytes)
+    (hwf : wfList fs vs = true) (hp : packList fs vs = .ok b) :
+    unpackPayloadsAt [fs] (pre ++ b) pre.length true = .ok ([vs], []) := by
+  have h := roundtrip_list_at_offset fs vs pre [] b hwf hp (fun _ => rfl)
+  simp only [List.append_nil] at h
+  simp [unpackPayloadsAt, h, bind, Except.bind]
+
+/-! ## the bytes are the documented ones -/
+
+/-- length-prefixed strings: big-endian prefix of the documented width holding `len / unit`, then the bytes -/
+theorem varlen_layout (lw unit : Nat) (x b : Bytes) (h : pack (.varlen lw unit) (.atom (.bytes x)) = .ok b) :
+    b = beEnc lw (x.length / unit) ++ x ∧ x.length / unit < 256 ^ lw := by
+  simp only [pack] at h
+  obtain ⟨l, hl, h1⟩ := bind_ok h
+  cases h1
+  obtain ⟨rfl, hn⟩ := packUint_ok hl
+  exact ⟨rfl, hn⟩
+
+/-- unsigned integers: exactly `w` bytes, most significant first -/
+theorem uint_layout (w n : Nat) (b : Bytes) (h : pack (.struct [.uint w]) (.atom (.nat n)) = .ok b) :
+    b.length = w ∧ beDec b = n ∧ n < 256 ^ w := by
+  simp only [pack, packFields, packField] at h
+  obtain ⟨x, hx, h1⟩ := bind_ok h
+  cases h1
+  obtain ⟨rfl, hn⟩ := packUint_ok hx
+  simp [beEnc_length, beDec_beEnc w n hn, hn]
+
+/-- nested payload: 2-byte big-endian body length, then the body (fields in format-list order) -/
+theorem nested_layout (fs : FmtList) (vs : ValList) (b : Bytes) (h : pack (.nested fs) (.record vs) = .ok b) :
+    ∃ body, packList fs vs = .ok body ∧ b = beEnc 2 body.length ++ body ∧ body.length < 65536 := by
+  simp only [pack] at h
+  obtain ⟨body, hb, h1⟩ := bind_ok h
+  obtain ⟨l, hl, h2⟩ := bind_ok h1
+  cases h2
+  obtain ⟨rfl, hn⟩ := packUint_ok hl
+  exact ⟨body, hb, rfl, by simpa using hn⟩
+
+/-- fields are concatenated in format-list order -/
+theorem fields_in_order (f : Fmt) (fs : FmtList) (v : Val) (vs : ValList) (b : Bytes)
+    (h : packList (.cons f fs) (.cons v vs) = .ok b) :
+    ∃ x y, pack f v = .ok x ∧ packList fs vs = .ok y ∧ b = x ++ y := by
+  simp only [packList] at h
+  obtain ⟨x, hx, h1⟩ := bind_ok h
+  obtain ⟨y, hy, h2⟩ := bind_ok h1
+  cases h2
+  exact ⟨x, y, hx, hy, rfl⟩
+
 /-- every documented data type is registered with exactly the documented layout
-    (field order, big-endian widths, length-prefix width and unit) -/
+    (field order, big-endian widths, length-prefix width and unit) — over the GENERATED registry -/
 theorem matches_documented_format : ∀ e ∈ docTable, lookup packers e.1 = some e.2 := by decide
 
 /-- the names the table does not list keep the layout frozen at the pinned commit -/
@@ -23,5 +117,69 @@ theorem all_payloads_wf : ∀ p ∈ payloads, wfPayload p = true := by decide
 theorem shipped_layouts_frozen : ∀ e ∈ frozenLayouts, layoutMatches e = true := by decide
 
 theorem shipped_msg_ids_frozen : ∀ e ∈ frozenMsgIds, msgIdMatches e = true := by decide
+
+/-! ## hand-written payloads and cells -/
+
+/-- CellPayload: `from_bin (to_bin prefix cell) = cell` for the 22-byte overlay prefix -/
+theorem cell_roundtrip (pre msg b : Bytes) (cid : Nat) (pt re : Bool) (hpre : pre.length = 22)
+    (h : Old.cellToBin pre cid pt re msg = .ok b) :
+    Old.cellFromBin b = .ok (cid, pt, re, msg) := by
+  simp only [Old.cellToBin] at h
+  obtain ⟨c, hc, h1⟩ := bind_ok h
+  cases h1
+  obtain ⟨rfl, hn⟩ := packUint_ok hc
+  generalize hd : pre ++ [0] ++ (beEnc 4 cid ++ [if pt = true then 1 else 0] ++ [if re = true then 1 else 0]) ++ msg = d
+  have e1 : readAt d 23 6 = .ok (beEnc 4 cid ++ [if pt = true then 1 else 0] ++ [if re = true then 1 else 0]) :=
+    readAt_at (l := pre ++ [0]) (r := msg) (by rw [← hd]; simp) (by simp [hpre]) (by simp [beEnc_length])
+  have e2 : d.drop 29 = msg := by
+    rw [← hd]
+    have : (pre ++ [0] ++ (beEnc 4 cid ++ [if pt = true then 1 else 0] ++ [if re = true then 1 else 0])).length = 29 := by
+      simp [hpre, beEnc_length]
+    rw [List.drop_append_of_le_length (by omega), ← this, List.drop_length]
+    rfl
+  have hl := beEnc_length 4 cid
+  have e3 : (beEnc 4 cid ++ [if pt = true then (1 : UInt8) else 0] ++ [if re = true then 1 else 0]).take 4 = beEnc 4 cid := by
+    rw [List.append_assoc, List.take_left' hl]
+  have e4 : ((beEnc 4 cid ++ [if pt = true then (1 : UInt8) else 0] ++ [if re = true then 1 else 0]).drop 4).take 1
+      = [if pt = true then 1 else 0] := by
+    rw [List.append_assoc, List.drop_left' hl]; rfl
+  have e5 : ((beEnc 4 cid ++ [if pt = true then (1 : UInt8) else 0] ++ [if re = true then 1 else 0]).drop 5).take 1
+      = [if re = true then 1 else 0] := by
+    rw [List.drop_left' (by simp [hl])]; rfl
+  simp only [Old.cellFromBin, e1, bind, Except.bind, e2, e3, e4, e5, beDec_beEnc 4 cid hn]
+  cases pt <;> cases re <;> simp [beDec, beDecAux]
+
+/-! ## non-vacuity: the hypotheses are satisfiable by concrete, non-trivial values -/
+
+/-- a `varlenH-list` of two byte strings followed by `bits`, at offset 3, with a suffix -/
+example : wfList (.cons (.listOf 1 (.varlen 2 1)) (.cons .bits .nil))
+      (.cons (.list (.cons (.atom (.bytes [1, 2])) (.cons (.atom (.bytes [])) .nil)))
+        (.cons (.tuple [.nat 1, .nat 0, .nat 0, .nat 0, .nat 0, .nat 0, .nat 1, .nat 1]) .nil)) = true
+    ∧ packList (.cons (.listOf 1 (.varlen 2 1)) (.cons .bits .nil))
+      (.cons (.list (.cons (.atom (.bytes [1, 2])) (.cons (.atom (.bytes [])) .nil)))
+        (.cons (.tuple [.nat 1, .nat 0, .nat 0, .nat 0, .nat 0, .nat 0, .nat 1, .nat 1]) .nil))
+      = .ok [2, 0, 2, 1, 2, 0, 0, 0x83] := by decide
+
+/-- the same values really decode at offset 3 inside other bytes (evaluation of the model, independent of the proof) -/
+example : unpackListAt (.cons (.listOf 1 (.varlen 2 1)) (.cons .bits .nil))
+      ([9, 9, 9] ++ [2, 0, 2, 1, 2, 0, 0, 0x83] ++ [7, 7]) 3
+    = .ok (.cons (.list (.cons (.atom (.bytes [1, 2])) (.cons (.atom (.bytes [])) .nil)))
+        (.cons (.tuple [.nat 1, .nat 0, .nat 0, .nat 0, .nat 0, .nat 0, .nat 1, .nat 1]) .nil), 11) := by decide
+
+/-- a shipped class with a nested list (PeersResponsePayload) has legal values: one IntroductionInfo with an IPv6 address;
+    its encoding has 54 bytes -/
+example : (findPayload "ipv8.messaging.anonymization.payload.PeersResponsePayload").map (fun p =>
+      let vs : ValList := .cons (.atom (.nat 7)) (.cons (.atom (.nat 9)) (.cons (.atom (.bytes (List.replicate 20 5)))
+        (.cons (.list (.cons (.record (.cons (.addr (.v6 (List.replicate 16 1) 80)) (.cons (.atom (.bytes [1]))
+          (.cons (.atom (.bytes [])) (.cons (.atom (.nat 2)) .nil))))) .nil)) .nil)))
+      (wfList p.fmts vs, (packList p.fmts vs).toOption.map List.length))
+    = some (true, some 54) := by decide
+
+/-- canonical flag lists exist and non-canonical ones are excluded -/
+example : wf (.flags 2) (.nats [1, 4, 32768]) = true ∧ wf (.flags 2) (.nats [4, 1]) = false := by decide
+
+/-- cells: hypothesis satisfiable -/
+example : Old.cellToBin (List.replicate 22 0xAB) 0x01020304 true false [5, 6] =
+    .ok (List.replicate 22 0xAB ++ [0, 1, 2, 3, 4, 1, 0, 5, 6]) := by decide
 
 end Ipv8.C02
